@@ -12,6 +12,8 @@ pub struct Faults {
     pub plan: Vec<(usize, bool)>,
     pub count: usize,
     pub fired: usize,
+    /// a slow disk: storage call number .0 (counted like the fault plan) takes .1 milliseconds longer, then succeeds
+    pub delay: Option<(usize, u64)>,
 }
 
 /// another instance acting on the same storage between two transactions of one request: before the
@@ -22,8 +24,11 @@ pub struct Intrude {
     pub client: Uuid,
     pub version: Uuid,
     pub data: Vec<u8>,
-    /// Some(v): instead of uploading a version, the other instance stores a snapshot for version v (stamped now)
+    /// Some(v): instead of uploading a version, the other instance stores a snapshot for version v (stamped now);
+    /// the nil id stands for "the version that is the client's latest when the intrusion happens"
     pub snap: Option<Uuid>,
+    /// act right AFTER the at_begin-th transaction from now on has committed (instead of before it begins)
+    pub after_commit: bool,
     pub seen: usize,
     pub fired: bool,
     pub failed: bool,
@@ -44,6 +49,14 @@ fn next_fault(f: &Arc<Mutex<Faults>>) -> Option<bool> {
     let mut g = f.lock().unwrap();
     let i = g.count;
     g.count += 1;
+    if let Some((k, ms)) = g.delay {
+        if k == i {
+            g.delay = None;
+            drop(g);
+            std::thread::sleep(std::time::Duration::from_millis(ms));
+            g = f.lock().unwrap();
+        }
+    }
     let hit = g.plan.iter().find(|(k, _)| *k == i).map(|(_, a)| *a);
     if hit.is_some() {
         g.fired += 1;
@@ -66,9 +79,15 @@ impl LogStore {
         g.count = 0;
         g.fired = 0;
     }
+    pub fn set_delay(&self, k: usize, ms: u64) {
+        let mut g = self.faults.lock().unwrap();
+        g.delay = Some((k, ms));
+        g.count = 0;
+    }
     pub fn clear_plan(&self) -> usize {
         let mut g = self.faults.lock().unwrap();
         g.plan.clear();
+        g.delay = None;
         g.fired
     }
     pub fn take_log(&self) -> Vec<&'static str> {
@@ -80,6 +99,7 @@ struct LogTxn<'a> {
     inner: Option<Box<dyn StorageTxn + 'a>>,
     log: Arc<Mutex<Vec<&'static str>>>,
     faults: Arc<Mutex<Faults>>,
+    store: &'a LogStore,
 }
 
 impl Storage for LogStore {
@@ -90,16 +110,29 @@ impl Storage for LogStore {
                 Some(i) => {
                     let now = i.seen;
                     i.seen += 1;
-                    if !i.fired && now == i.at_begin { i.fired = true; Some((i.client, i.version, i.data.clone(), i.snap)) } else { None }
+                    if !i.fired && !i.after_commit && now == i.at_begin { i.fired = true; Some((i.client, i.version, i.data.clone(), i.snap)) } else { None }
                 }
                 None => None,
             }
         };
         if let Some((c, v, d, snap)) = fire {
+            self.intrusion(c, v, d, snap);
+        }
+        self.log.lock().unwrap().push("begin");
+        self.txn_rest(client_id)
+    }
+}
+
+impl LogStore {
+    /// what the other instance does (directly on the wrapped storage)
+    fn intrusion(&self, c: Uuid, v: Uuid, d: Vec<u8>, snap: Option<Uuid>) {
+        {
             let r = (|| -> anyhow::Result<()> {
                 let mut t = self.inner.txn(c)?;
                 match snap {
                     Some(sv) => {
+                        let sv = if sv.is_nil() { t.get_client()?.map(|cl| cl.latest_version_id).unwrap_or(sv) } else { sv };
+                        if let Some(i) = self.intrude.lock().unwrap().as_mut() { i.version = sv; }
                         t.set_snapshot(Snapshot { version_id: sv, timestamp: chrono::Utc::now(), versions_since: 0 }, d)?;
                     }
                     None => {
@@ -116,7 +149,22 @@ impl Storage for LogStore {
                 if let Some(i) = self.intrude.lock().unwrap().as_mut() { i.failed = true; }
             }
         }
-        self.log.lock().unwrap().push("begin");
+    }
+    /// called by a transaction of this store right after its commit succeeded
+    fn after_commit(&self) {
+        let fire = {
+            let mut g = self.intrude.lock().unwrap();
+            match g.as_mut() {
+                // (seen was advanced when this transaction began: it is the at_begin-th one if seen == at_begin + 1)
+                Some(i) if i.after_commit && !i.fired && i.seen == i.at_begin + 1 => { i.fired = true; Some((i.client, i.version, i.data.clone(), i.snap)) }
+                _ => None,
+            }
+        };
+        if let Some((c, v, d, snap)) = fire {
+            self.intrusion(c, v, d, snap);
+        }
+    }
+    fn txn_rest(&self, client_id: Uuid) -> anyhow::Result<Box<dyn StorageTxn + '_>> {
         match next_fault(&self.faults) {
             Some(false) => return Err(injected()),
             Some(true) => {
@@ -132,7 +180,7 @@ impl Storage for LogStore {
             drop(c);
         }
         let t = t?;
-        Ok(Box::new(LogTxn { inner: Some(t), log: self.log.clone(), faults: self.faults.clone() }))
+        Ok(Box::new(LogTxn { inner: Some(t), log: self.log.clone(), faults: self.faults.clone(), store: self }))
     }
 }
 
@@ -247,7 +295,11 @@ impl StorageTxn for LogTxn<'_> {
             }
             None => {}
         }
-        self.inner.as_mut().unwrap().commit()
+        let r = self.inner.as_mut().unwrap().commit();
+        if r.is_ok() {
+            self.store.after_commit();
+        }
+        r
     }
 }
 
